@@ -1,5 +1,13 @@
-"""C16 (a) — every assumption handed to the backend is covered by the DIMACS header's variable count."""
+"""C16 (a) — every assumption handed to the backend is covered by the DIMACS header's variable count (Kani), and
+C16 (reply) — the verdict table at the end of the real reply parser, re-extracted from the source and decided by z3
+(tv/reply_table.py): a model only with status line + value line + terminating 0, UNSAT only with its status line."""
+import os
+import sys
+
+import common
 import kani_check
+
+sys.path.insert(0, os.path.join(common.VERIF, "tv"))
 
 FUNCS = ['solvers::StableSemanticsSolver::{compute_one_extension,are_credulously_accepted[_with_certificate],are_skeptically_accepted[_with_certificate]}', 'solvers::CompleteSemanticsSolver::are_credulously_accepted[_with_certificate] (DC-CO and DC-PR, encoders aux_var / exp / hybrid)', 'solvers::GroundedSemanticsSolver (GR, SE-CO, DS-CO)', 'utils::ConnectedComponentsComputer', 'utils::grounded_extension', 'encodings::{DefaultStableConstraintsEncoder,aux_var,exp,hybrid}::{encode_constraints,arg_to_lit,assignment_to_extension}', 'aa::{AAFramework,ArgumentSet}, utils::LabelSet (HashMap replaced by VecMap under cfg(kani))'] + ["sat::SatSolver::{n_vars,add_clause,solve_under_assumptions} as used by the solvers (oracle-side obligation)"]
 BOUNDS = 'one harness = one concrete framework presentation (graph code, plain / duplicated attacks / sparse ids) x every listed query on a fresh solver object; symbolic: every model the SAT backend may return at every call (demonic oracle: SAT/UNSAT computed over all assignments of <=6 variables, the model is an arbitrary satisfying one). Frameworks: 2 arguments (quick), 2-3 arguments (thorough), listed in the harness names (gN = graph code, bit i*n+j = attack i->j). OUTSIDE the claim: the iterative solvers PR (SE/DS), SST, STG, ID and MaximalExtensionComputer on frameworks where the backend returns a model (CBMC does not finish on them even for a<->b: >16 GB / >25 min, see DESIGN.md; the harnesses on them use frameworks whose grounded extension decides every argument, so that every SAT call is unsatisfiable), frameworks with more than 3 arguments, the real backends.'
@@ -7,13 +15,57 @@ ASSUME = ['demonic oracle (kani/src/oracle.rs): any correct SatSolver may return
                "the instance is well-formed iff no assumption variable exceeds n_vars() at the time of the call, which is what the oracle records"]
 
 
+def reply_part(res):
+    ok, log = common.build_native(os.path.join(common.VERIF, "tv"))
+    if not ok:
+        res.inconclusive.append("replyrun does not build against /repo: " + log[-800:])
+        return
+    import reply_table
+    r = reply_table.run()
+    res.inconclusive += r["inconclusive"]
+    replayed = 0
+    for v in r["violations"]:
+        good, why = reply_table.replay(v)
+        replayed += 1
+        if good:
+            path = common.write_replay("C16", "reply_%s" % v["query"], dict(v, replay=why))
+            res.violations.append(("reply parser: %s: %s" % (v["what"], why), path))
+        else:
+            res.inconclusive.append("SMT counterexample did not replay against the real reply parser: %r (%s)" % (v["reply"], why))
+    cov = res.coverage if isinstance(res.coverage, dict) else {}
+    cov["reply_table"] = {"table": r.get("table"), "facts": r.get("flags"), "smt_queries": r.get("queries", []),
+                          "solver_s": round(r.get("solver_s", 0.0), 3), "replayed": replayed,
+                          "translator_validation": "%s concrete replies evaluated in the encoding and through the real parser" % r.get("validated", 0),
+                          "bounds": "all 3 x 2 x 2 combinations of (status line seen, value line seen, terminating 0 seen) with end => seen; "
+                                    "outside: the line classification and literal parsing that collect these facts (located textually, not encoded), "
+                                    "literals after the terminating 0, the pipe/process clause"}
+    if "functions_encoded" in cov and isinstance(cov["functions_encoded"], list):
+        cov["functions_encoded"].append("sat::BufferedSatSolver::solve_under_assumptions: final `match status` verdict table (re-extracted from the source, z3)")
+    res.coverage = cov
+    res.assumptions.append("reply table: the flags assignment_line_seen / assignment_line_end are set where the extraction located them (value-line branch; literal 0) and nowhere reset")
+
+
 def run(tier, seed):
+    res = _run_kani(tier, seed)
+    reply_part(res)
+    return res
+
+
+def _run_kani(tier, seed):
     return kani_check.run("C16", ["c16_"], tier, seed, dict(
         functions=FUNCS, bounds="header obligation on every SAT call of the listed queries; " + BOUNDS +
-        " Also outside: the reply parser (BufReader / str::parse: CBMC does not finish), the 'cannot hang' clause (threads, pipes, child process).",
+        " Also outside: the tokenisation of the reply (BufReader / str::parse: CBMC does not finish; only its final verdict table is decided, by z3, see reply_table), the 'cannot hang' clause (threads, pipes, child process).",
         assumptions=ASSUME), jobs=6)
 
 
 def replay(path):
+    import json
+    v = json.load(open(path))
+    if "reply" in v:
+        common.build_native(os.path.join(common.VERIF, "tv"))
+        import reply_table
+        good, why = reply_table.replay(v)
+        print(("REPRODUCED: " if good else "NOT REPRODUCED: ") + why)
+        return 1 if good else 0
     import kani_replay
     return kani_replay.replay_file(path)
